@@ -71,3 +71,15 @@ Proof.
   split; [|vm_compute; reflexivity].
   unfold wf_series; cbn. repeat split; try lia. repeat constructor; lia.
 Qed.
+
+(** two corners of [wf_series] that [C14_series_roundtrip] therefore covers: the empty-range placeholder
+    the view answer uses for archives that were not selected (from = until, no values), and a range that is
+    no whole number of steps (the value count is the floor) -- seeded changes C14-o and C14-n broke exactly these *)
+Example C14_series_corners :
+  wf_series (mkSeries 0 0 60 []) /\ wf_series (mkSeries 100 125 10 [1; 2]) /\
+  dec_series (enc_series (mkSeries 0 0 60 []) ++ enc_series (mkSeries 100 125 10 [1; 2]))
+  = Ok (mkSeries 0 0 60 []) (enc_series (mkSeries 100 125 10 [1; 2])).
+Proof.
+  split; [|split; [|vm_compute; reflexivity]];
+    (unfold wf_series; cbn; repeat split; try lia; repeat constructor; lia).
+Qed.
